@@ -1076,7 +1076,7 @@ func runConcurrent(k *vf.Case) {
 
 func main() {
 	vf.Main("C07", "exploration", func(c *vf.Ctx) {
-		c.Rule = "measurement sequences through the public API (view-less aggregation selector, int64 and float64 histograms, cumulative reader collected after EVERY record, delta reader every 1-8 records): random magnitudes over the whole float64 exponent range, subnormals, signs, zeros, exact powers of two, +-1/+-2 ulp neighbours of 2^(k/2^s) boundaries, designed grow-below/grow-above/long-downscale-chain sequences; (MaxSize,MaxScale) in {1,2,3,4,20,160}x{-10,-3,0,1,5,10,20}; explicit boundary lists (empty, one, default, 100 random, adjacent floats, huge/tiny/negative fractional) with values on boundaries, a quarter of them handed over shuffled through a view function. distinct = distinct (kind, MaxSize, MaxScale, final scale, number type, design, downscale count class) signatures"
+		c.Rule = "measurement sequences through the public API (view-less aggregation selector, int64 and float64 histograms, cumulative reader collected after EVERY record, delta reader every 1-8 records): random magnitudes over the whole float64 exponent range, subnormals, signs, zeros, exact powers of two, +-1/+-2 ulp neighbours of 2^(k/2^s) boundaries, designed grow-below/grow-above/long-downscale-chain sequences; (MaxSize,MaxScale) in {1,2,3,4,20,160}x{-10,-3,0,1,5,10,20}; explicit boundary lists (empty, one, default, 100 random, adjacent floats, huge/tiny/negative fractional) with values on boundaries, a quarter of them handed over shuffled through a view function; every checked point is scribbled over by the consumer. distinct = distinct (kind, MaxSize, MaxScale, final scale, number type, design, downscale count class) signatures"
 		c.Assume = []string{"exact bucket index from a 512-bit big.Float binary logarithm (110 fractional bits); scale <= 0 and powers of two by exponent arithmetic", "int64 measurements are bucketed as float64(v)", "Inf/NaN measurements are outside the statement (finite measurements)"}
 		otel.SetErrorHandler(&errSink{})
 		c.Cases("expo", c.N(6000, 80_000), 0, runExpo)
